@@ -23,6 +23,42 @@ CHECKS = {
         technique="TLA+ model of converter liveness/scoping vs Python semantics, TLC exhaustive + simulation, derived programs replayed into script()/eager/ORT",
         design_ref="DESIGN.md section 4 C01",
     ),
+    "C02": dict(
+        level="model_checking",
+        text="Graph.tla defines well-formedness of an ONNX graph with nested subgraphs (every name defined once incl. subgraphs, uses visible and defined "
+             "earlier, outputs distinct and produced inside, domains imported once); it is evaluated BY TLC on the abstract form of every ModelProto and "
+             "FunctionProto the real converter emits (GraphCheck.tla) for the programs derived by Script.tla (rendered under three variable naming schemes, "
+             "incl. user names that look like generated ones), next to onnx.checker (strict, full_check / check_function). Near-miss source mutations "
+             "(return in a block, augmented assignment, del, try, undefined name, break not last, range with two arguments, while on an expression) must "
+             "raise at decoration.",
+        note="programs are those of C01's grammar; functions with attribute parameters are not exported as models (documented)",
+        technique="TLA+ well-formedness predicate evaluated by TLC on real protos of TLC-derived programs + ONNX checker + near-miss refusal",
+        design_ref="DESIGN.md section 4 C02",
+    ),
+    "C06": dict(
+        level="model_checking",
+        text="Matcher.tla builds patterns bottom-up, instantiates them into host graphs and applies single mutations; for every case TLC evaluates the "
+             "declarative meaning (forced correspondences consistent, local requirements, removability; commuted variants) and an operational model of "
+             "_matcher.py/_basics.py (depth-first matching with the stack of partial matches, OR dispatch/backtracking, merge) and checks they agree on the "
+             "design. Every case is rebuilt with the public pattern API and real ir graphs and given to Pattern.match (and to every pattern of "
+             "GraphPattern.commute()); verdict, bindings and matched nodes are compared with the declarative meaning and the operational model.",
+        note="single-output-node patterns; <=2 pattern nodes with all ops / <=3 with two ops (thorough), one OR, local features (attributes, "
+             "allow_other_*, optional input) on single-node patterns",
+        technique="TLA+ declarative vs operational matcher model, TLC exhaustive over instance-directed cases, each case replayed into Pattern.match",
+        design_ref="DESIGN.md section 4 C06",
+    ),
+    "C13": dict(
+        level="model_checking",
+        text="Export.tla builds abstract graphs (ops, constants, initializers, If/Loop forms, nested bodies), picks export options and ONNX names, runs the "
+             "exporter step by step (name tables, signature, initializers, node translation incl. the Loop forms, return), models what script() accepts "
+             "and compares Python semantics of the emitted program with the ONNX semantics (DesignOK / DeviationsExplain). Every TLC case becomes a real "
+             "ModelProto/FunctionProto -> proto2python -> compile -> import -> to_model_proto -> ORT vs ORT(original); plus the documented script<->ONNX "
+             "round trip of script functions under all 16 option combinations.",
+        note="values are FLOAT scalars holding integers/nan/inf; graph inputs/outputs compared by position, type and shape; 17 exporter defects are "
+             "listed as known findings",
+        technique="TLA+ model of the exporter + converter acceptance, TLC exhaustive, each case round-tripped through proto2python and ORT",
+        design_ref="DESIGN.md section 4 C13",
+    ),
     "C10": dict(
         level="model_checking",
         text="VersionConvert.tla models convert_version as a pipeline of named steps (entry form, inline, path decision, per-node adapter steps incl. "
